@@ -189,6 +189,19 @@ func judgeRefresh(o *outcome, nf int, hraw string, hv seen, rraw string, rv seen
 			o.fail("auth:accepted-expired", fmt.Sprintf("Refresh accepted the refresh token [%s] at clock %d", rv.word(now), now))
 		}
 	}
+	// a matching pair: issued together (expiry distance = difference of the two lifetimes, up to the tolerance),
+	// and the refresh token's client is the caller's or the access token's
+	if isHS(hv) && isHS(rv) && hv.claims[2].kind == 'n' && rv.claims[2].kind == 'n' {
+		d := (rv.claims[2].fl - hv.claims[2].fl) - int64(api.REFRESH_JWT_TOKEN_EXPIRE_TS-api.JWT_TOKEN_EXPIRE_TS)
+		if d > api.EPSILON_EXPIRE_TS+1 || d < -api.EPSILON_EXPIRE_TS-1 {
+			bad(fmt.Sprintf("the expiry distance of the two is off by %d s", d))
+		}
+	}
+	if rc, ok := strClaim(rv.claims[0]); ok {
+		if ac, _ := strClaim(hv.claims[0]); rc != pcli && rc != ac {
+			bad("the refresh token's client info matches neither the request's nor the access token's")
+		}
+	}
 	// the two new tokens are for that user, of the right kinds
 	if !isHS(av) || !av.sig[0] || av.claims[1].kind != 's' || av.claims[1].s != user || av.claims[3].kind != 'a' {
 		bad("the new access token is [" + av.word(now) + "]")
